@@ -1,6 +1,7 @@
 //! C17 — the vector primitives, called directly (in whichever backend this binary was built with).
 //! case: `c17 px <hex u64>`                 prefix_xor                    -> `r=<hex u64>`
 //!       `c17 ns <hex 64 bytes>`            get_nonspace_bits             -> `r=<hex u64>`
+//!       `c17 d2i <hex 16 bytes> <need>`    simd_str2int (first byte a digit, need in 1..=16) -> `r=<sum> n=<count>`
 //!       `c17 v <lanes> <hex bytes> <hex c>` u8xN eq/le, i8xN eq/le/gt against splat(c) -> `eq=.. le=.. ieq=.. ile=.. igt=..`
 use crate::util::*;
 use sonic_simd::{i8x16, i8x32, i8x64, u8x16, u8x32, u8x64, Mask, Simd};
@@ -44,6 +45,12 @@ pub fn run() {
                     32 => lanes!(u8x32, i8x32, 32, &a, c),
                     _ => lanes!(u8x64, i8x64, 64, &a, c),
                 }
+            }
+            "d2i" => {
+                let a = unhex(&p[2]);
+                let need: usize = p[3].parse().unwrap();
+                let (sum, n) = sonic_number::verif_str2int(&a, need);
+                format!("r={} n={}", sum, n)
             }
             _ => "bad-op".into(),
         });
@@ -91,5 +98,32 @@ pub fn gen(seed: u64, thorough: bool) {
             let a: Vec<u8> = (0..lanes).map(|_| (r.next() & 0xff) as u8).collect();
             out.line(&format!("c17 v {} {} {:02x}", lanes, hex(&a), (r.next() & 0xff) as u8));
         }
+    }
+    // simd_str2int: every prefix length with every kind of terminator, every need; all-9 / all-0 / random digits
+    let terms: [u8; 12] = [b'/', b':', b'.', b'e', b'E', b'"', 0, 0x7f, 0x80, 0xff, b' ', b'-'];
+    for len in 1..=16usize {
+        for need in 1..=16usize {
+            for kind in 0..4 {
+                for (ti, t) in terms.iter().enumerate() {
+                    if len == 16 && ti > 0 { break; }
+                    if (kind == 3) && !thorough && ti > 3 { break; }
+                    let mut a = [0u8; 16];
+                    for (i, slot) in a.iter_mut().enumerate() {
+                        *slot = if i < len {
+                            match kind { 0 => b'9', 1 => b'0', 2 => b'0' + ((i * 7 + len) % 10) as u8, _ => b'0' + (r.next() % 10) as u8 }
+                        } else if i == len { *t } else if kind % 2 == 0 { b'0' + (r.next() % 10) as u8 } else { (r.next() & 0xff) as u8 };
+                    }
+                    out.line(&format!("c17 d2i {} {}", hex(&a), need));
+                }
+            }
+        }
+    }
+    for _ in 0..n {
+        let mut a = [0u8; 16];
+        for slot in a.iter_mut() {
+            *slot = if r.next() % 8 == 0 { (r.next() & 0xff) as u8 } else { b'0' + (r.next() % 10) as u8 };
+        }
+        a[0] = b'0' + (r.next() % 10) as u8;
+        out.line(&format!("c17 d2i {} {}", hex(&a), 1 + r.next() % 16));
     }
 }
